@@ -3,7 +3,7 @@ package main
 func init() {
 	register(&propSpec{
 		ID:    "C05",
-		Rules: []func(*Ctx){ruleR05a, ruleR05b, ruleR05f},
+		Rules: []func(*Ctx){ruleR05a, ruleR05b, ruleR05f, ruleR05g},
 		Explain: "R05a: every scanner loop that reads input is evaluated with each rune read yielding eof (the source predicates are evaluated on that one constant) and must leave within a bounded unrolling; " +
 			"R05b: every parser loop that reads tokens is evaluated with reads yielding the closed-channel item / EOF / error item and must leave (return, break, or a raising call); " +
 			"R05f: the scanner's end-of-input state transition graph is acyclic and ends in nil.",
@@ -15,7 +15,7 @@ func init() {
 func init() {
 	register(&propSpec{
 		ID:         "C08",
-		Rules:      []func(*Ctx){ruleR08a, ruleR08b, ruleR02a},
+		Rules:      []func(*Ctx){ruleR08a, ruleR08b, ruleR08d, ruleR02a},
 		Explain:    "R08a/R08c: interprocedural effect analysis over SSA and the VTA call graph (CHA in the thorough tier): every Store, MapUpdate, append/copy/delete/sort reachable from Renderer.Execute, Tofu.Render, EvalExpr, soyjs.Write and Generator.WriteFile is classified by the provenance of the object written; a write into a non-fresh object of a type declared in ast/template/soymsg/pomsg, into data.Map/data.List, or into a package variable is a violation.",
 		NotDecided: "determinism of functions that are random by specification (randomInt); behaviour of caller-supplied writers, bundles and callbacks.",
 		Assumes:    []string{"call graph (VTA; CHA in thorough) covers every dynamic call", "no reflection or unsafe writes in reachable code (asserted on every run)", "standard-library functions listed as allocating return fresh storage"},
@@ -25,8 +25,8 @@ func init() {
 func init() {
 	register(&propSpec{
 		ID:         "C02",
-		Rules:      []func(*Ctx){ruleR02a, ruleR02b, ruleR02c},
-		Explain:    "R02a: push/pop pairing of the renderer's scope in every soyhtml function (go/cfg dataflow over relative depth, raising paths exempt); R02b: every AST field the parser fills from a command body (derived from parse, not listed) is walked inside its own frame, or the *ast.ListNode case brackets its elements.",
+		Rules:      []func(*Ctx){ruleR02a, ruleR02b, ruleR02c, ruleR02d, ruleR02e, ruleR02g},
+		Explain:    "R02a: push/pop pairing of the renderer's scope in every soyhtml function (go/cfg dataflow over relative depth, raising paths exempt); R02b: every AST field the parser fills from a command body (derived from parse, not listed) is walked inside its own frame, or the *ast.ListNode case brackets its elements; R02c: scope-frame typestate (set only on renderer-allocated frames, new states only get entered scopes, capped data=\"all\" view); R02d: the loop helper functions look up exactly the key suffixes the loop sets.",
 		NotDecided: "the rendered text of each command; call-name resolution through namespace/alias; header-param folding.",
 		Assumes:    []string{"go/cfg control flow; no-return functions inferred from the source (panic closure)"},
 	})
@@ -35,7 +35,7 @@ func init() {
 func init() {
 	register(&propSpec{
 		ID:         "C09",
-		Rules:      []func(*Ctx){ruleR09a, ruleR08b, ruleR09b, ruleR09c, ruleR09d},
+		Rules:      []func(*Ctx){ruleR09a, ruleR08b, ruleR08d, ruleR09b, ruleR09c, ruleR09d},
 		Explain:    "R09a: the C08 effect analysis over every concurrent entry (render, JS generation; for parse/compile entries: package-state writes only) - no shared-memory write means no race among them; R08b: scope-frame freshness typestate; R09b: lexer fields written by the scanner goroutine and touched by the parser are disjoint except the channel; R09c: run closes the channel on every exit; R09d: no goroutine is started on the render path.",
 		NotDecided: "schedules as such are not explored; third-party writers, bundles and callbacks; Bundle.recompiler (WatchFiles), which upstream documents as not goroutine-safe.",
 		Assumes:    []string{"absence of shared writes is the sufficient condition for race freedom used here", "VTA call graph (CHA in thorough)", "channel operations synchronise"},
@@ -45,7 +45,7 @@ func init() {
 func init() {
 	register(&propSpec{
 		ID:         "C12",
-		Rules:      []func(*Ctx){ruleR12, ruleR06a},
+		Rules:      []func(*Ctx){ruleR12, ruleR06a, ruleR19c},
 		Explain:    "R12: error discipline on SSA: every call reachable from Renderer.Execute that writes to an io.Writer-typed operand (Write, io.WriteString, fmt.Fprint*) must have its error tested with the failing branch raising (errorf/panic) or returning it to callers that do; in-memory buffers (*bytes.Buffer by construction) are exempt. R06a: the entry converts the raise into its returned error. Since every failed write raises and emission is sequential, the accepted bytes are a prefix and nil is returned only if every write succeeded.",
 		NotDecided: "writers that violate the io.Writer contract (short write without error).",
 		Assumes:    []string{"io.Writer contract", "VTA call graph for reachability"},
@@ -65,7 +65,7 @@ func init() {
 func init() {
 	register(&propSpec{
 		ID:         "C03",
-		Rules:      []func(*Ctx){ruleR03a, ruleR03b, ruleR03c, ruleR03d},
+		Rules:      []func(*Ctx){ruleR03a, ruleR03b, ruleR03c, ruleR03d, ruleR03e, ruleR02e},
 		Explain:    "R03a: evalPrint is evaluated (finite-domain, AST) for every autoescape mode x cancel-flag value: unless the mode is off or a directive cancels, every completing path writes through the escaper and none writes raw; R03b: every cancelling PrintDirectives entry is in the language's list, and the HTML-producing / re-encoding ones return only data that passed their escaper (SSA taint from the value parameter to every return); R03c: the escaper's table covers the five characters with references that decode back and contain none of them; R03d: parseAutoescape yields the off mode only for \"false\".",
 		NotDecided: "index arithmetic inside the escaper loop (which byte ranges are copied); user-registered directives; contextual (attribute/JS/URI-aware) escaping, which this implementation does not provide.",
 		Assumes:    []string{"text/template.HTMLEscapeString, net/url.QueryEscape, text/template.JSEscapeString and encoding/json.Marshal are correct encoders"},
@@ -145,7 +145,7 @@ func init() {
 func init() {
 	register(&propSpec{
 		ID:         "C04",
-		Rules:      []func(*Ctx){ruleR04a, ruleR04b, ruleR04c, ruleR04d, ruleR04f, ruleR04g, ruleR11a, ruleR07b},
+		Rules:      []func(*Ctx){ruleR04a, ruleR04b, ruleR04c, ruleR04d, func(c *Ctx) { ruleBlockUse(c, "R04d-use", "soyjs") }, ruleR04f, ruleR04g, ruleR11a, ruleR07b},
 		Explain:    "Sibling cross-check of the two backends: R04a node-kind case sets agree (named exceptions); R04b function tables (names, argument counts), loop functions and print-directive tables (names, CancelAutoescape) agree; R04d the generator's scope push/pop is paired and every command body gets its own frame; R04c every expression emitter (walk cases and function-table emitters) is linearised by evaluating its emit calls path by path, parsed as a JavaScript expression template in which child slots are atoms, and for each operand slot every type-compatible child emitter must bind at least as tightly as the slot requires (and must not start with '-' directly after a '-'); R04f each operator node emits the JavaScript operator the language maps it to, operands in order; R04g visitPrint (evaluated over mode x cancel flag) wraps the value in escapeHtml exactly when the Go renderer escapes; R11a message parts are handled by both backends; R07b binder kinds agree.",
 		NotDecided: "anything inside soyutils.js; number formatting; mixed-type equality; statement-level structure of the generated file.",
 		Assumes:    []string{"the frozen operator mapping Soy -> JavaScript in the checker"},
